@@ -119,7 +119,7 @@ def _rule_sets():
 
 POOLS = {
     "Id": [1, 22, 333],
-    "Name": ["ann", " bob ", None, "", 77],
+    "Name": ["ann", " bob ", None, "", 77, 0],
     "Flag": [None, "v", 1, False, "True", ""],
     "Note": [None, "a, b\nc", "x"],
     "Tags": [None, "t1,t2,,t1", " t3 "],
@@ -202,6 +202,8 @@ def _check_sheet(rs, sheet: Sheet, stop_on: str, ladder: bool, filled: Optional[
     for objs, ri in zip(results, data):
         for obj, cls, rules in zip(objs, rs["cls"], rs["rules"]):
             if obj is None:
+                if "Id" in col_of and _empty(sheet.rows[ri][col_of["Id"]].value):
+                    continue        # a data row without a key (e.g. a remark in an untitled column): it counts as a row, its object is not specified
                 raise Violation(f"none-object :: {what}: no object for data row {ri + 1}")
             if not isinstance(obj, cls):
                 raise Violation(f"wrong-class :: {what}: row {ri + 1} gives {type(obj).__name__}")
@@ -252,6 +254,12 @@ def _check_sheet(rs, sheet: Sheet, stop_on: str, ladder: bool, filled: Optional[
                 exp_val = ctype.val_from_cell(at)
                 if val != exp_val or type(val) is not type(exp_val):
                     raise Violation(f"value :: {what}: row {ri + 1}: {attr} == {val!r}, the cell at {got_origin} converts to {exp_val!r}")
+                # the two simplest converters also against their documentation ("get string / int value from cell"), independently of the package
+                if at.value is not None:
+                    if ctype is X.cell_str and (not isinstance(val, str) or val.strip() != str(at.value).strip()):
+                        raise Violation(f"value-str :: {what}: row {ri + 1}: {attr} == {val!r}, but the cell at {got_origin} holds {at.value!r} (string value {str(at.value)!r})")
+                    if ctype is X.cell_int and isinstance(at.value, int) and val != at.value:
+                        raise Violation(f"value-int :: {what}: row {ri + 1}: {attr} == {val!r}, but the cell at {got_origin} holds {at.value!r}")
     if filled is not None:
         # ladder equivalence: same attribute values as the filled-in twin read as a plain table
         plain = list(X.XlsTableReader(*readers).iter_table(filled, stop_on=stop_on, ladder_format=False))
@@ -347,6 +355,14 @@ def h_sheet(perm: int, lead_blank: int, offset_i: int, stop_i: int, ladder: bool
                     grid = [[None] * len(order)] * lead_blank + [list(order)] + data_rows + [[None] * len(order), ["after", "end"] + [None] * (len(order) - 2)]
                     sheet = Sheet("My Sheet", grid, offset)
                     _check_sheet(rs, sheet, stop_on, False, None, f"rules={shard['rules']} columns={order} offset={offset} stop_on={stop_on} rows={data_rows}")
+                    if stop_on == "blank all" and "" in order and n == 2 and combo[0] == 0:
+                        # a row that is blank in every titled column but carries a remark in an untitled one is not a blank row:
+                        # the table goes on after it
+                        remark = [("remark" if c == "" else None) for c in order]
+                        rows3 = [data_rows[0], remark, data_rows[1]]
+                        grid = [[None] * len(order)] * lead_blank + [list(order)] + rows3 + [[None] * len(order), ["after", "end"] + [None] * (len(order) - 2)]
+                        _check_sheet(rs, Sheet("My Sheet", grid, offset), stop_on, False, None,
+                                     f"rules={shard['rules']} columns={order} offset={offset} stop_on={stop_on} rows={rows3}")
 
 
 def jobs(tier: str) -> List[Job]:
